@@ -9,13 +9,13 @@ Sources modelled (the model follows the code that exists, including its defects)
   server/backend/database/memory (lookups `by id, then compare ProjectID`), server/backend/channel
 
 The store is `Proj → PState`.  A handler is a list of `Guard`s followed by an `Effect`.
-Every guard except `revisionGlobal` and `sessionGlobal`, and every effect except
-`detachSessionGlobal`, reads / writes only the state of the one project the request
-resolved to.  `sessionGlobal` / `detachSessionGlobal` are what the code does
-(`Channel.Detach`, `Channel.Refresh` take a bare session id) and are the listed finding of
-C13.  `revisionGlobal` is what `YorkieService.GetRevision` did before /repo commit ddb0dfd3
-(`revisions.Get` took a bare revision id); no handler of the table uses it any more, it is
-kept for `oldGetRevision` and the witness theorem about the repaired defect.
+Every guard and every effect a handler of the table uses reads / writes only the state of
+the one project the request resolved to.  Three global ones are kept for the named OLD
+variants of repaired handlers (`oldGetRevision`, `oldDetachChannel`, `oldRefreshChannel`) and
+the witness theorems about the repaired defects:
+  `revisionGlobal`                      GetRevision before /repo ddb0dfd3 (`revisions.Get(revisionID)`)
+  `sessionGlobal`, `detachSessionGlobal` DetachChannel / RefreshChannel before /repo 3821028d
+                                        (`Channel.Detach` / `Channel.Refresh(sessionID)` on a bare id)
 -/
 namespace Yorkie.Access
 
@@ -169,7 +169,8 @@ inductive Guard
   | schemaByName       -- schemas.GetSchema(s) / RemoveSchema (project.ID, name)
   | revisionOfProject  -- FindRevisionInfoByID + `revision.ProjectID != project.ID` (revisions.Restore, admin)
   | revisionGlobal     -- revisions.Get(revisionID): NO project comparison (GetRevision before ddb0dfd3; unused)
-  | sessionGlobal      -- Channel.Detach / Channel.Refresh(sessionID): NO project      (finding)
+  | sessionGlobal      -- Channel.Detach / Channel.Refresh(sessionID): NO project (before 3821028d; unused by the table)
+  | sessionOfChannel   -- Channel.EnsureSessionIn(sessionID, {project.ID, channel_key}) (since 3821028d)
   | docRemoved         -- packs.Purge: only a removed document
   | projectAndRole     -- projects.ProjectAndRole(user, project_name): owner or member
   | permissionById     -- projects.UpdateProject / RotateProjectKeys: authz.CheckPermission(user, id, Admin)
@@ -186,7 +187,8 @@ inductive Effect
   | noop
   | newClient | deactivate | deactivateAsync | attach | detach | removeDoc | write
   | attachChannel | firstRefresh
-  | detachSessionGlobal      -- Channel.Detach(sessionID) removes the session wherever it lives (finding)
+  | detachSessionGlobal      -- Channel.Detach(sessionID) removes the session wherever it lives (before 3821028d; unused)
+  | detachSession            -- Channel.Detach after EnsureSessionIn: a session of the resolved project's channel
   | createDoc | findOrCreateDoc | removeDocByName | createSchema | removeSchema
   | setting | acceptInvite | removeMember | purge
   deriving DecidableEq, Repr
@@ -235,6 +237,9 @@ def evalLocal (st : PState) (p : Proj) (u : Option User) (r : Req) : Guard → O
   | .docKeyFree => if nameLive st p r.name then some .alreadyExists else none
   | .schemaByName => if schemaLive st p r.name then none else some .notFound
   | .revisionOfProject => if r.rev.isIn p && st.revision then none else some .notFound
+  | .sessionOfChannel =>
+    -- the fixture's session of `p` lives in the channel every project calls by the shared key
+    if r.session.isIn p && st.session && r.name = .shared then none else some .notFound
   | .docRemoved => if st.doc = .removed then none else some .failedPrecondition
   | .permissionAdmin =>
     match u with
@@ -318,6 +323,7 @@ def Effect.onProject (eff : Effect) (p : Proj) (u : Option User) (r : Req) (st :
   | .removeDoc | .removeDocByName => { st with doc := .removed, writes := st.writes + 1 }
   | .write => { st with writes := st.writes + 1 }
   | .attachChannel => st
+  | .detachSession => { st with session := false }
   | .createDoc => { st with extraDocs := st.extraDocs + 1 }
   | .findOrCreateDoc => if nameLive st p r.name then st else { st with extraDocs := st.extraDocs + 1 }
   | .createSchema => { st with extraSchemas := st.extraSchemas + 1 }
@@ -388,8 +394,8 @@ def yorkieHandlers : List (String × Handler) := [
   ("ListRevisions",         ⟨.apiKey, [docByRef, verifyAccess, activeClient], .noop⟩),
   ("RestoreRevision",       ⟨.apiKey, [docByRef, verifyAccess, activeClient, revisionOfProject], write⟩),
   ("AttachChannel",         ⟨.apiKey, [verifyAccess, activeClient], attachChannel⟩),
-  ("DetachChannel",         ⟨.apiKey, [verifyAccess, activeClient, sessionGlobal], detachSessionGlobal⟩),
-  ("RefreshChannel",        ⟨.apiKey, [verifyAccess, sessionGlobal], .noop⟩),
+  ("DetachChannel",         ⟨.apiKey, [verifyAccess, activeClient, sessionOfChannel], detachSession⟩),
+  ("RefreshChannel",        ⟨.apiKey, [verifyAccess, sessionOfChannel], .noop⟩),
   ("RefreshChannel+first",  ⟨.apiKey, [verifyAccess, verifyAccess], firstRefresh⟩),
   ("PeekChannel",           ⟨.apiKey, [verifyAccess], .noop⟩),
   ("Broadcast",             ⟨.apiKey, [verifyAccess, activeClient], .noop⟩)
@@ -454,6 +460,16 @@ not return a revision of another document"): the revision was loaded by its bare
 of the table; only `Props/C13.lean: getRevision_fixed_witness` speaks about it. -/
 def oldGetRevision : Handler :=
   ⟨.apiKey, [.docByRef, .verifyAccess, .activeClient, .revisionGlobal], .noop⟩
+
+/-- `YorkieService.DetachChannel` / `RefreshChannel` (heartbeat path) as they were before /repo
+commit 3821028d ("fix: DetachChannel and RefreshChannel must act on a session of the caller's
+channel"): the bare session id went to `Channel.Detach` / `Channel.Refresh`. Not part of the
+table; only `Props/C13.lean: sessionScope_fixed_witness` speaks about them. -/
+def oldDetachChannel : Handler :=
+  ⟨.apiKey, [.verifyAccess, .activeClient, .sessionGlobal], .detachSessionGlobal⟩
+
+def oldRefreshChannel : Handler :=
+  ⟨.apiKey, [.verifyAccess, .sessionGlobal], .noop⟩
 
 def handlersOf : Svc → List (String × Handler)
   | .yorkie => yorkieHandlers | .admin => adminHandlers | .cluster => clusterHandlers
